@@ -1,6 +1,7 @@
 package checks
 
 import (
+	"bytes"
 	"fmt"
 	"sort"
 	"strings"
@@ -69,6 +70,14 @@ func C15(t Tier) int {
 		"empty":     func() *world.World { return world.New(world.Options{Accounts: []*world.Account{e.A, e.B, e.W, e.F}}) },
 		"populated": func() *world.World { return populated(e) },
 	}
+	// a second fee payer whose address bytes compare to the writer's the other way round than F's do
+	var otherSide *world.Account
+	for _, c := range []*world.Account{e.B, e.A} {
+		if (bytes.Compare(c.Addr, e.W.Addr) < 0) != (bytes.Compare(e.F.Addr, e.W.Addr) < 0) {
+			otherSide = c
+			break
+		}
+	}
 	maxLen := 3
 	evals, okTx, failedTx := 0, 0, 0
 	var samples []any
@@ -80,7 +89,7 @@ func C15(t Tier) int {
 		var seq func(cur []int)
 		seq = func(cur []int) {
 			if len(cur) > 0 {
-				for arr := 0; arr < 3; arr++ {
+				for arr := 0; arr < 4; arr++ {
 					for fi, fee := range fees {
 						// build the message list for this arrangement
 						var msgs []sdk.Msg
@@ -114,6 +123,22 @@ func C15(t Tier) int {
 								msgs = append(msgs, menu[mi].mk(e.W, i))
 								names = append(names, menu[mi].name)
 							}
+						case 3: // as 1, with a fee payer whose address sorts on the OTHER side of the writer's (signer ordering slips)
+							fp := otherSide
+							if fp == nil {
+								continue
+							}
+							msgs = append(msgs, aoltypes.NewMsgAddRecordRequest("a", []byte("k15"), []byte("v15"), e.W.Bech, e.A.Bech, fp.Bech))
+							names = append(names, "add-record(feepayer="+fp.Name+")")
+							addSigner(fp)
+							addSigner(e.W)
+							if bn == "empty" {
+								expectOK = false
+							}
+							for i, mi := range cur[1:] {
+								msgs = append(msgs, menu[mi].mk(e.W, i))
+								names = append(names, menu[mi].name)
+							}
 						case 2: // messages of two different signers in one transaction
 							for i, mi := range cur {
 								a := e.A
@@ -126,7 +151,7 @@ func C15(t Tier) int {
 							}
 						}
 						for i, mi := range cur {
-							if arr == 1 && i == 0 {
+							if (arr == 1 || arr == 3) && i == 0 {
 								continue
 							}
 							if strings.HasSuffix(menu[mi].name, "-fail") {
